@@ -151,9 +151,9 @@ func Run(in Input) (c *common.Case, err error) {
 		return runLive(in)
 	}
 	base, fake, conf := MP+"/b", MP+"/p", MP+"/lc.conf"
-	os.RemoveAll(base)
+	cleanBase()
 	os.RemoveAll(fake)
-	defer os.RemoveAll(base)
+	defer cleanBase()
 	defer os.RemoveAll(fake)
 	os.Unsetenv("LAYERROOT")
 	os.Unsetenv("LAYERCONF")
@@ -163,7 +163,7 @@ func Run(in Input) (c *common.Case, err error) {
 	if err != nil {
 		return nil, err
 	}
-	if err := buildFakeProc(fake, cfg.Layerdirs, in.Procs); err != nil {
+	if err := buildFakeProc(fake, realDir(cfg.Layerdirs), in.Procs); err != nil {
 		return nil, fmtErr("fake /proc: %v", err)
 	}
 	snap, err := snapshot(fake)
@@ -178,7 +178,29 @@ func Run(in Input) (c *common.Case, err error) {
 	return observe(in, cfg, conf, snap)
 }
 
+func cleanBase() {
+	os.RemoveAll(MP + "/b")
+	os.RemoveAll(MP + "/real")
+}
+
+// realDir: the directory as the kernel names it (second implementation: os/filepath, also
+// what the repaired FindLayerUsers uses)
+func realDir(d string) string {
+	if r, err := filepath.EvalSymlinks(d); err == nil {
+		return r
+	}
+	return d
+}
+
 func setupBase(in Input, base, conf string) (*config.ConfigType, error) {
+	if in.BaseLink { // MP/b -> real/base: the configured path has a symbolic link in it
+		if err := os.MkdirAll(MP+"/real/base", 0755); err != nil {
+			return nil, err
+		}
+		if err := os.Symlink("real/base", base); err != nil {
+			return nil, err
+		}
+	}
 	text := fmt.Sprintf("BASEPATH = %s\nLAYERS = %s\nBUILDROOT = %s\nOVERFS_WORKDIR = %s\nOVERFS_UPPERDIR = %s\n",
 		base, in.LayersName, in.Dirs[0], in.Dirs[1], in.Dirs[2])
 	if err := os.WriteFile(conf, []byte(text), 0644); err != nil {
@@ -382,7 +404,7 @@ func finishCase(in Input, cfg *config.ConfigType, snap []procSnap, fault *faultM
 	if statusIdx >= 0 {
 		stT = q.Some(q.Nat(statusIdx))
 	}
-	c.Coq = q.App("C19.MkCase", q.Hx(cfg.Layerdirs),
+	c.Coq = q.App("C19.MkCase", q.Hx(cfg.Layerdirs), q.Hx(realDir(cfg.Layerdirs)),
 		q.HxList([]string{cfg.LayerBuildRoot, cfg.LayerOvfsWorkdir, cfg.LayerOvfsUpperdir}),
 		q.HxList(names), q.List(pts), q.List(fts), stT, obsTerm)
 	classify(c, in, cfg, snap, fault)
@@ -481,7 +503,7 @@ func classify(c *common.Case, in Input, cfg *config.ConfigType, snap []procSnap,
 	var key strings.Builder
 	nLinks, nIn, nProc := 0, 0, 0
 	long := false
-	prefix := cfg.Layerdirs + "/"
+	prefix := realDir(cfg.Layerdirs) + "/"
 	for _, p := range snap {
 		if !p.IsDir {
 			continue
@@ -507,7 +529,7 @@ func classify(c *common.Case, in Input, cfg *config.ConfigType, snap []procSnap,
 			fmt.Fprintf(&key, ",%s", hexs(*t))
 		}
 	}
-	fmt.Fprintf(&key, "|layers=%v|dirs=%v|status=%s", in.Layers, in.Dirs, in.Status)
+	fmt.Fprintf(&key, "|layers=%v|dirs=%v|status=%s|link=%v", in.Layers, in.Dirs, in.Status, in.BaseLink)
 	classes := []string{}
 	if fault != nil {
 		fmt.Fprintf(&key, "|fault=%d/%s/%s", fault.Proc, fault.Rid, fault.Err)
@@ -526,6 +548,9 @@ func classify(c *common.Case, in Input, cfg *config.ConfigType, snap []procSnap,
 	}
 	if long {
 		classes = append(classes, "target>=256")
+	}
+	if in.BaseLink {
+		classes = append(classes, "symlinked-base-path")
 	}
 	if in.Dirs != [3]string{"build", "overlayfs/workdir", "overlayfs/upperdir"} {
 		classes = append(classes, "custom-dirs")
